@@ -883,6 +883,16 @@ func (idx *Index) Flush() (types.Work, error) {
 	idx.outstandingWork = 0
 	idx.bucketLk.Unlock()
 
+	// The entries just taken from the pool may refer to primary records that
+	// were put after the caller last flushed the primary. Write those records
+	// first, so that an index entry never reaches disk before the data it
+	// points to.
+	if idx.Primary != nil {
+		if _, err := idx.Primary.Flush(); err != nil {
+			return 0, err
+		}
+	}
+
 	blks := make([]bucketBlock, 0, len(idx.curPool))
 	var work types.Work
 	for bucket, data := range idx.curPool {
